@@ -77,9 +77,15 @@ Proof.
     cbn [a_flag a_E a_nU a_nL a_lenU a_lenL a_p1U a_p1L a_p2 a_p3 a_dU a_dL a_cls] in *;
     unfold KW, KB, KChkL, KChkU, KCas, KWr in *;
     try exact I.
+  all: destruct I as (F & KU & KL & I0 & I1 & GW & GC).
+  all: destruct W as (W1 & W2 & W3 & W4 & W5 & W6 & W7 & W8 & W9).
+  all: destruct W' as (V1 & V2 & V3 & V4 & V5 & V6 & V7 & V8 & V9).
+  all: clear V7 V8 V9 W7 W8.
+  all: try (destruct F as [F|F]; try subst f; try discriminate F).
   all: try (destruct E; [|]); try (destruct E'; [|]).
-  all: try (destruct (lL =? 0) eqn:EL); try (destruct (lU =? 0) eqn:EU).
-  all: try lia.
+  all: try match goal with |- context [if ?b then _ else _] => destruct b eqn:? end.
+  all: splits.
+  all: intros; lia.
 Qed.
 
 (* ---- the concrete steps are abstract steps ---- *)
@@ -135,7 +141,7 @@ Lemma trig_step_astep : forall s t c s1 o done,
 Proof.
   intros s t c s1 o done H [So Sf] Hc. unfold trig_step in H.
   destruct (get_trig (trigs s) t) as [p x] eqn:Eth. cbn [t_pc t_task] in H.
-  assert (Wth : forall w, w (get_trig (trigs s) t) = w (mkTrig p x)) by (intro w; rewrite Eth; reflexivity).
+  assert (Wth : forall w : trig -> Z, w (get_trig (trigs s) t) = w (mkTrig p x)) by (intro w; rewrite Eth; reflexivity).
   destruct p as [| |q|q| | |]; destruct c as [order| | |sp|v|k sc|k l];
     try (inv H; splits; [split; assumption|exact Hc|reflexivity|reflexivity|discriminate|reflexivity|apply A_nop]).
   - (* TLen *)
